@@ -26,3 +26,54 @@ package interop
 //@ requires ic != nil
 //@ ensures (result1 == nil) == hasContract(ic, hash)
 //@ ensures result1 == nil ==> result0 != nil && same(result0.Manifest.Groups, cGroups(ic, hash))
+
+// Hardfork lookup: reads the configured heights and the persisting block only.
+//@ prop C15,C16
+//@ import config github.com/nspcc-dev/neo-go/pkg/config
+//@ import vm github.com/nspcc-dev/neo-go/pkg/vm
+//@ spec hfOn(ic *Context, hf config.Hardfork) bool
+//@ func (*Context).IsHardforkEnabled
+//@ assumed
+//@ pure
+//@ ensures result == hfOn(ic, hf)
+
+// C16: a system call's handler runs only when the executing context has every flag the
+// call's table entry asks for.
+//@ prop C16
+//@ func (*Context).GetFunction
+//@ assumed
+//@ pure
+//@ requires ic != nil
+//@ func (*Context).BaseExecFee
+//@ inline
+//@ func (*Context).BaseStorageFee
+//@ inline
+//@ func (*Context).BlockHeight
+//@ assumed
+//@ pure
+//@ func (*Context).SyscallHandler
+//@ may-panic
+//@ opt frame off
+//@ requires ic != nil && ic.VM != nil && ic.VM.gasConsumed != nil
+//@ call funcvalue:Function.Func requires[flags] ic.VM.flags & f.RequiredFlags == f.RequiredFlags
+
+// Read-only accessors of native contract descriptors.
+//@ func (*HFSpecificContractMD).GetMethodByOffset
+//@ requires c != nil
+//@ func (*ContractMD).HFSpecificContractMD
+//@ assumed
+//@ pure
+//@ ensures result != nil
+//@ iface Contract.Metadata
+//@ assumed
+//@ pure
+//@ ensures result != nil
+//@ iface Contract.ActiveIn
+//@ assumed
+//@ pure
+//@ iface Ledger.NativeManagementID
+//@ assumed
+//@ pure
+//@ iface PolicyChecker.WhitelistedFee
+//@ assumed
+//@ pure
